@@ -145,6 +145,20 @@ def _body_paths(check):
     n0 = len(check.obs)
     check.guarded("LAYOUT-AGREE", "integration.implicitmodel.calc_jacobian", lambda: c06.fd_column(check, proj, conservation_only=True, only_kinds=("layout",)))
     check.obs[n0:] = [o for o in check.obs[n0:] if o.rule == "LAYOUT-AGREE" or o.status != "ok"]
+    # "all integrators": the implicit family packs the per-equation arrays into ONE vector; every term of the linear system must
+    # use the same (interleaved) packing, or the contribution of cell i / variable q lands on another cell -- an assignment
+    # anchored on cell 0 that does not commute with the shift (same obligations as C06 TH-SCHEME, the layout clauses only)
+    for c in c06.implicit_classes(proj):
+        n0 = len(check.obs)
+        check.guarded("LAYOUT-AGREE", c.qualname, lambda: c06.th_scheme(check, proj, c), c.loc())
+        kept = []
+        for o in check.obs[n0:]:
+            if (o.status == "violation" and o.key in ("dt-tiled", "col-scaling", "varmajor")) or o.status == "undecided":
+                o.rule = "LAYOUT-AGREE"
+                kept.append(o)
+        if not kept:
+            check.ok("LAYOUT-AGREE", c.qualname, "every term of the implicit system uses the interleaved packing (unknown q + neq*i is variable q of cell i)", c.loc())
+        check.obs[n0:] = kept + check.obs[len(check.obs):]
     from . import c15
     if check.guarded("LAYOUT-AGREE", "modeldisc.fvm2dcart", lambda: c15.layout_agree(check)):
         check.guarded("SEAM-2D", "modeldisc.fvm2dcart.calc_bc_grad", lambda: c15.seam_2d(check))
